@@ -235,7 +235,7 @@ func verifHosts(l *roundRobinLoadBalancer) []*Host { return l.hosts.Load().([]*H
 //@   modifies nothing, p.$has, p.$tag, p.$val
 
 //@ type proxycore.ClientConn
-//@   immutable: conn, pending, eventHandler, preparedCache, logger, closingMu, codec
+//@   immutable: conn, pending, eventHandler, preparedCache, logger, closingMu, codec, compression
 //@   guarded_by closingMu: closing
 
 // Request callbacks re-enter the connection layer (a retried request is registered on another
@@ -375,8 +375,8 @@ func verifHosts(l *roundRobinLoadBalancer) []*Host { return l.hosts.Load().([]*H
 //@   requires i != nil
 //@   modifies *
 
-// C18: ClientConn.codec is declared immutable (written once, before the reader goroutine is
-// started). Handshake is brought under contract only for the lock/immutability discipline.
+// C18: ClientConn.codec is declared immutable (written once, by ConnectClient, before the reader
+// goroutine is started). Handshake is brought under contract only for the lock/immutability discipline.
 //@ func proxycore.ClientConn.SendAndReceive [C01, C02]
 //@   requires c != nil && c.closingMu != nil && c.pending != nil && c.conn != nil
 //@   ensures decoded-or-error: result1 == nil && result0 != nil ==> result0.Body != nil && result0.Body.Message != nil && (typeis(result0.Body.Message, *message.RowsResult) ==> rowsOK(as(result0.Body.Message, *message.RowsResult))) [C17]
@@ -463,7 +463,7 @@ func verifHosts(l *roundRobinLoadBalancer) []*Host { return l.hosts.Load().([]*H
 
 //@ func proxycore.ConnectClient [C08]
 //@   trusted
-//@   ensures result1 == nil ==> result0 != nil && fresh(result0) && result0.preparedCache == config.PreparedCache && result0.closingMu != nil && result0.pending != nil && fresh(result0.pending) && result0.conn != nil && result0.codec != nil
+//@   ensures result1 == nil ==> result0 != nil && fresh(result0) && result0.preparedCache == config.PreparedCache && result0.closingMu != nil && result0.pending != nil && fresh(result0.pending) && result0.conn != nil && result0.codec != nil && result0.compression == config.Compression
 //@   ensures result1 != nil ==> result0 == nil
 //@   modifies nothing
 
@@ -481,6 +481,7 @@ func verifHosts(l *roundRobinLoadBalancer) []*Host { return l.hosts.Load().([]*H
 // and - if the session has a keyspace - successfully switched to it.
 //@ func proxycore.connPool.connect [C07, C08]
 //@   local $ccCache PreparedCache = nil
+//@   local $ccCompression string = ""
 //@   local $ccHsVersion primitive.ProtocolVersion = 0
 //@   local $ccHsCompressionOK bool = false
 //@   local $ccHsDone bool = false
@@ -489,12 +490,13 @@ func verifHosts(l *roundRobinLoadBalancer) []*Host { return l.hosts.Load().([]*H
 //@   local $ccKs string = ""
 //@   local $ccKsOK bool = false
 //@   requires p != nil
-//@   before proxycore.ConnectClient#1 set $ccCache = arg2.PreparedCache
+//@   before proxycore.ConnectClient#1 set $ccCache = arg2.PreparedCache; $ccCompression = arg2.Compression
 //@   before proxycore.ClientConn.Handshake#1 set $ccHsVersion = arg2; $ccHsCompressionOK = ite(p.config.Compression == "", len(arg4) == 0, len(arg4) == 2 && arg4[0] == "COMPRESSION" && arg4[1] == p.config.Compression)
 //@   after proxycore.ClientConn.Handshake#1 set $ccHsDone = (result1 == nil); $ccHsGot = result0
 //@   before proxycore.ClientConn.SetKeyspace#1 set $ccKsTried = true; $ccKs = arg3
 //@   after proxycore.ClientConn.SetKeyspace#1 set $ccKsOK = (result == nil)
 //@   ensures cache: err == nil ==> conn != nil && $ccCache == p.preparedCache
+//@   ensures codec: err == nil ==> $ccCompression == p.config.Compression && conn.compression == p.config.Compression
 //@   ensures handshake: err == nil ==> $ccHsDone && $ccHsVersion == p.config.Version && $ccHsGot == p.config.Version && $ccHsCompressionOK
 //@   ensures keyspace: err == nil && p.config.Keyspace != "" ==> $ccKsTried && $ccKsOK && $ccKs == p.config.Keyspace
 //@   ensures failure: err != nil ==> conn == nil
